@@ -14,7 +14,7 @@ import (
 
 // wt protocol (C16, WaitTimeout):
 //
-//	wt <timeoutMs> <signalAtMs|-1|-2|-3> <sig|bcast> <ghosts>   (-2: the signaller already waits for the mutex when the call starts;
+//	wt <timeoutMs> <signalAtMs|-1|-2|-3|-4|-5> <sig|bcast> <ghosts>   (-4/-5: three concurrent callers, one Broadcast / three Signals after 80 ms; -2: the signaller already waits for the mutex when the call starts;
 //	                                                             -3: no signal, and ANOTHER goroutine is already parked in cond.Wait on the same condition variable)
 //
 // The caller locks L and calls machine.WaitTimeout(cond, timeoutMs); another goroutine
@@ -51,6 +51,10 @@ func wtGen(seed uint64, tier string) {
 		proto.Reply("wt %d -3 sig 0", t)
 	}
 	proto.Reply("wt 40 -3 sig 2")
+	// several concurrent callers on one condition variable: one Broadcast, or one Signal per caller
+	proto.Reply("wt 3000 -4 bcast 0")
+	proto.Reply("wt 3000 -5 sig 0")
+	proto.Reply("wt 20 -4 bcast 0")
 	for i := 0; i < 3; i++ {
 		proto.Reply("wt 1500 -2 sig 0")
 		proto.Reply("wt 1500 -2 bcast 0")
@@ -138,6 +142,52 @@ func wtOne(w []string) string {
 			} else {
 				res <- "held prompt"
 			}
+			return
+		}
+		if sigAt == -4 || sigAt == -5 {
+			// several callers wait on the SAME condition variable at once; one Broadcast (-4), or as many Signals in a row as
+			// there are callers (-5), 80 ms later: every one of them returns promptly, holding the mutex in its turn
+			const callers = 3
+			var cw sync.WaitGroup
+			worst := make([]time.Duration, callers)
+			entered := make(chan struct{}, callers)
+			for c := 0; c < callers; c++ {
+				cw.Add(1)
+				go func(c int) {
+					defer cw.Done()
+					mu.Lock()
+					entered <- struct{}{}
+					t1 := time.Now()
+					machine.WaitTimeout(cond, uint64(timeout))
+					worst[c] = time.Since(t1)
+					mu.Unlock()
+				}(c)
+			}
+			for c := 0; c < callers; c++ {
+				<-entered
+			}
+			time.Sleep(80 * time.Millisecond)
+			mu.Lock()
+			if sigAt == -4 {
+				cond.Broadcast()
+			} else {
+				for c := 0; c < callers+ghosts; c++ {
+					cond.Signal()
+				}
+			}
+			mu.Unlock()
+			cw.Wait()
+			bound := 80
+			if timeout < bound {
+				bound = timeout
+			}
+			for _, d := range worst {
+				if d > time.Duration(bound+wtSlackMs)*time.Millisecond {
+					res <- "held late"
+					return
+				}
+			}
+			res <- "held prompt"
 			return
 		}
 		released := make(chan struct{})
